@@ -7,7 +7,11 @@ TEXT = ("Shape contract of WaitMatch.convert evaluated on every call: every reac
         "With the restart-automaton lemma (DESIGN.md C16) this gives: never fails, end-of-input never enters a handler, completes at the first restart-semantics match.")
 
 
-TEXT2 = (" The contract above is on the machine the front end builds. What the optimised machines and the emitted C do with the same wait statements is checked by running the real generated parser "
+TEXT2 = (" Proved (pyvc, all transitions / literals / action lists): the body of the retargeting loop of WaitMatch.convert, for an arbitrary pair handed out by transitions_pointing_to, "
+         "re-targets the transition to the pattern start, marks it error handling, makes it consuming with the per-character actions exactly at the start state and leaves kind and actions alone elsewhere, "
+         "touches nothing else, and leaves states outside the waited-for machine alone; literal inner machines (DirectMatch / CaseDirectMatch) reach the handler only by fall-through error transitions. "
+         "Assumed: transitions_pointing_to returns the reachable (state, transition) pairs whose target is the handler (checked at run time by the rtc contract above)."
+         " The contract above is on the machine the front end builds. What the optimised machines and the emitted C do with the same wait statements is checked by running the real generated parser "
          "(-O0 and -O3) on all inputs up to a bound and on inputs guided by the reading, against the restart-semantics reading of the reference interpreter (vf/c01): bounded.")
 
 
@@ -18,6 +22,12 @@ def main():
     from . import c01
     sel = lambda c: c.startswith("WaitMatch.convert")
     rep, outs = R.run_contracts("C16", sel, ["WaitMatch.convert"], ["dfa"], "join", TEXT, ["WaitMatch.convert"])
+    # per-iteration contract of the retargeting loop, discharged from the real AST for an arbitrary (state, transition) pair (pyvc); the
+    # inner machines of literal patterns hand over only fall-through error transitions to the handler (chain shape, proved as well)
+    from . import leaf_proofs
+    from ..pyvc.driver import Program
+    nm = common.load_nmfu()
+    leaf_proofs.run(rep, "C16", ["WaitMatch", "DirectMatch", "CaseDirectMatch"], nm, Program(nm, common.repo_source()))
     # the compiled (optimised) parsers on the wait programs
     ps = [{"name": p["name"], "src": p["src"]} for p in gen.wait_programs()]
     thorough = common.tier() == "thorough"
